@@ -63,8 +63,14 @@ P('C02', claimed=True, needs_driver=True, level='other',
               'independent SCgf-2 reader.'),
   unreached=['acceptance by a real scsynth'])
 
-P('C03', claimed=True, level='other', contracts=['base_utils', 'synth_ugen'], drivers=['vf.drivers.C03'],
-  level_text=('The wrap-around law of the list helper every expansion rests on (utils.wrap_extend: length n, '
+P('C03', claimed=True, level='other', contracts=['base_utils', 'synth_ugen', 'synth_multinew'], drivers=['vf.drivers.C03'],
+  level_text=('The generic expansion itself, SynthObject._multi_new, is under contract for calls with 1-4 arguments of '
+              'arbitrary values and list lengths: without a (non-empty) list exactly one unit via _new1; otherwise '
+              'exactly one recursive call per channel i of the longest list with every list argument replaced by '
+              'its element i mod its length (loop invariant over the ghost trace), the rate name of each channel '
+              'checked, the result stored at position i and handed to ChannelList; an empty list next to a longer '
+              'one is refused (ZeroDivisionError) iff present. '
+              'The wrap-around law of the list helper every expansion rests on (utils.wrap_extend: length n, '
               'element i is lst[i mod len]; utils.extend) is proved for all lists and positions. '
               'The wrap-and-zip law is checked as a run-time contract on the real constructors: every '
               'directly delegating constructor of every installed unit-generator class (found by an AST '
@@ -162,15 +168,24 @@ P('C10', claimed=True, level='other', contracts=['base_clock_sched', 'base_rng',
   unreached=['the RT side for all schedules'])
 
 P('C11', claimed=True, level='other',
-  contracts=['base_stream'], drivers=['vf.drivers.C11'],
+  contracts=['base_stream', 'base_condition'], drivers=['vf.drivers.C11'],
   level_text=('Frame conditions of Routine.next are discharged for every outcome of the body (yield, '
               'return, StopStream, YieldAndReset, AlwaysYield, other exceptions): the current time '
               'thread is restored, the parent link cleared, the state is the documented one; the guard '
-              'table of pause/resume/stop/reset is proved. All operation sequences of length <= 5 over '
+              'table of pause/resume/stop/reset is proved; thread_player is a pure lookup along the parent '
+              'chain. Condition.wait (generator body: raises outside a routine before yielding; else exactly one '
+              'yield - \'hang\' after queueing the thread player when the test is false, 0 and nothing queued when '
+              'it holds), Condition.signal/unhang (waiting list swapped for a new empty one BEFORE rescheduling; '
+              'every waiter scheduled exactly once with delta 0 on its own clock, in order; nothing when the test '
+              'is false), FlowVar.value setter (refuses a second binding without side effect; binds first, then '
+              'signals once) and getter (waits on its own condition, returns the value as it is after the wait; '
+              'the field is havoc\'d across the suspension). All operation sequences of length <= 5 over '
               '11 body kinds, and Condition/FlowVar scenarios, are checked against a reference state '
               'machine (bounded).'),
   level_note=('The body is an uninterpreted call with the documented outcomes (rely: nested routines '
-              'restore the thread they found). Condition.wait/FlowVar.value are generators: bounded only.'))
+              'restore the thread they found). In the Condition contracts `tt._clock.sched(0, tt)` is a ghost event '
+              '(what sched does is C05/C08), the lock an opaque context manager, the test a boolean (a callable test '
+              'is exercised by the bounded driver).'))
 
 P('C12', claimed=True, level='proof',
   contracts=['base_clock'], drivers=['vf.drivers.C12'],
